@@ -420,6 +420,10 @@ def invariant(rep: Report, prog: Program) -> None:
         raise AnalysisError("R10.4: fewer than two returning paths in Budget.consume")
     rep.floor("R10.4", 5)
 
+    from .common import forwarding_slice
+
+    forwarding_slice(rep, "R10.5", prog, ("budget",), "the shared budget the caller configured is the budget that is charged: `budget` reaches every retry component unchanged through decorator, sugar classes and from_config (= the budget obligations of C12 R12.3)")
+
 
 def contains_any(t: Any, subs: tuple) -> bool:
     from ..paths import contains
